@@ -14,8 +14,9 @@ var key = bytes.Repeat([]byte{0x33}, 32)
 
 type desc struct {
 	Setup  ss.Setup      `json:"setup"`
-	Warm   []ss.Msg      `json:"warm"` // delivered honestly first (so faults also hit non-first frames)
-	Msgs   []ss.Msg      `json:"msgs"` // the transcript that is attacked
+	Back   []ss.Msg      `json:"back,omitempty"` // sent first by the RECEIVER of the attacked transcript (material for reflection)
+	Warm   []ss.Msg      `json:"warm"`           // delivered honestly first (so faults also hit non-first frames)
+	Msgs   []ss.Msg      `json:"msgs"`           // the transcript that is attacked
 	Edit   []ss.EditItem `json:"edit"`
 	API    string        `json:"api"`
 	ASends bool          `json:"a_sends"`
@@ -44,6 +45,14 @@ func frameCount(ms []ss.Msg) int {
 
 func build(d *desc) *ss.Case {
 	c := &ss.Case{Setup: d.Setup}
+	if len(d.Back) > 0 {
+		st := ss.Step{Kind: "phase", ASends: !d.ASends, NoWire: true}
+		for _, m := range d.Back {
+			st.SOps = append(st.SOps, m.SOps()...)
+			st.ROps = append(st.ROps, ss.ROpsFor("complete", len(m.Bytes()), 0)...)
+		}
+		c.Steps = append(c.Steps, st)
+	}
 	if len(d.Warm) > 0 {
 		st := ss.Step{Kind: "phase", ASends: d.ASends, NoWire: d.Fault != "none"}
 		for _, m := range d.Warm {
@@ -145,6 +154,13 @@ func run(c *core.Ctx, d *desc) error {
 	return check(d, obs)
 }
 
+// bareReflection: the receiver is handed its OWN first protected frame while it still waits for
+// the peer's first frame, on a pair keyed without any cleartext in either direction (both
+// handshake digests are the zero block, so nothing distinguishes the directions).
+func bareReflection(d *desc) bool {
+	return len(d.Fault) >= 23 && d.Fault[:23] == "reflect own first frame" && len(d.Setup.PreAB) == 0 && len(d.Setup.PreBA) == 0 && len(d.Warm) == 0
+}
+
 func dmsg(off int, parts ...int) ss.Msg {
 	m := ss.Msg{Kind: "direct"}
 	for i, p := range parts {
@@ -167,7 +183,11 @@ func gen(c *core.Ctx) error {
 		k++
 		c.OracleCheck()
 		if err := run(c, d); err != nil {
-			c.OracleFail("prefix", err.Error(), d)
+			if bareReflection(d) {
+				c.OracleFail("reflection-without-handshake-digests", err.Error(), d)
+			} else {
+				c.OracleFail("prefix", err.Error(), d)
+			}
 		}
 		c.Nontrivial(fmt.Sprint(d.Setup.PreAB != nil, d.ASends, len(d.Warm), d.Fault, len(d.Msgs)))
 		c.Count("fault-" + faultClass(d.Fault))
@@ -286,6 +306,34 @@ func gen(c *core.Ctx) error {
 						}
 					}
 				}
+				// reflection: frames the receiver itself sent are handed back to it
+				if !withSecret {
+					back := []ss.Msg{dmsg(11, 6), dmsg(12, 2, 3)}
+					mkr := func(fault string, edit []ss.EditItem) *desc {
+						d := mk(fault, edit)
+						d.Back = back
+						return d
+					}
+					for bi := 0; bi < 3; bi++ { // the receiver's own frames: 0 carries its IV
+						for j := 0; j < n; j++ {
+							e := full()
+							e[j] = ss.EditItem{Kind: "refl", J: bi, Flag: -1}
+							name := fmt.Sprintf("reflect own frame %d in place of frame %d", bi, j)
+							if bi == 0 && j == 0 {
+								name = fmt.Sprintf("reflect own first frame in place of frame %d", j)
+							}
+							try(mkr(name, e))
+						}
+						for p := 0; p <= n; p += 2 {
+							e := append(append(append([]ss.EditItem{}, full()[:p]...), ss.EditItem{Kind: "refl", J: bi, Flag: -1}), full()[p:]...)
+							name := fmt.Sprintf("insert own frame %d at %d", bi, p)
+							if bi == 0 && p == 0 {
+								name = "reflect own first frame inserted at 0"
+							}
+							try(mkr(name, e))
+						}
+					}
+				}
 				// random multi-fault combinations
 				nr := 10
 				if !c.Quick() {
@@ -323,7 +371,7 @@ func gen(c *core.Ctx) error {
 }
 
 func faultClass(f string) string {
-	for _, p := range []string{"none", "flip header", "flip body", "drop", "duplicate", "swap", "replay", "replace", "cut", "set end flag", "forge length", "insert forged", "multi"} {
+	for _, p := range []string{"none", "reflect", "insert own", "flip header", "flip body", "drop", "duplicate", "swap", "replay", "replace", "cut", "set end flag", "forge length", "insert forged", "multi"} {
 		if len(f) >= len(p) && f[:len(p)] == p {
 			return p
 		}
